@@ -50,7 +50,9 @@ Termination == <>(pc = "done")
 BlameOf(h) ==
   CASE h.dim \in {"td1", "td2", "td3"} /\ h.val \in {"nosuch", "foreign-absent", "foreign-unknown-prefix", "self", "t1", "t2", "t3"} -> "type"
     [] h.dim = "gr1" /\ h.val \in {"nosuch", "foreign-absent"} -> "uses"
-    [] h.dim = "range" /\ h.val \in {"bad-syntax", "descending", "outside-parent"} -> "range"
+    [] h.dim = "range" /\ h.val \in {"bad-syntax", "descending", "outside-parent", "dec-bad-syntax", "dec-too-precise", "dec-outside-parent",
+                                       "dec-derived-outside", "above-the-type", "below-the-type"} -> "range"
+    [] h.dim = "range" /\ h.val \in {"beyond-the-last-part", "in-a-gap", "length-descending"} -> "length"
     [] h.dim = "enumx" /\ h.val \in {"duplicate-name", "huge-value", "value-not-a-number"} -> "enum"
     [] h.dim = "union" /\ h.val = "of-cyclic-typedef" -> ""
     [] OTHER -> ""
